@@ -291,7 +291,7 @@ func (c *zzC11Case) zzC11History(ord int) []zzC11Op {
 	var hist []zzC11Op
 	for t := 0; t < 300; t++ {
 		hist = c.zzC11Order(ord + 2*t*100003)
-		if alias, wrong := c.zzC11Replica(hist); !alias && !wrong {
+		if early, alias, wrong := c.zzC11Replica(hist); !early && !alias && !wrong {
 			break
 		}
 	}
@@ -438,9 +438,13 @@ func zzC11SameTrace(a, b []int64) bool {
 // (walk the inheritor's component list, advance while the entries match, put
 // the new entry at the position reached; when that position is inside the list
 // the aliasing append overwrites the entry there and duplicates the new one).
-// alias: some insertion landed inside a list. wrong: some final list differs
-// from the component order.
-func (c *zzC11Case) zzC11Replica(hist []zzC11Op) (alias, wrong bool) {
+// It also replays how Flavor.inheritFlavor (pkg/flavors/flavor.go:214-229)
+// fills a new flavor's list: the whole list of each component (which already
+// ends with vanilla-flavor's entry for a message like :init) is appended in
+// turn. early: at some defflavor vanilla-flavor's entry landed in front of a
+// later component's entry. alias: some insertion landed inside a list. wrong:
+// some final list differs from the component order.
+func (c *zzC11Case) zzC11Replica(hist []zzC11Op) (early, alias, wrong bool) {
 	tab := make([][]int, c.n)
 	defined := make([]bool, c.n)
 	has := make([]bool, c.n)
@@ -458,6 +462,9 @@ func (c *zzC11Case) zzC11Replica(hist []zzC11Op) (alias, wrong bool) {
 			}
 			if c.msg == ":init" && !zzC11In(list, zzC11Vanilla) {
 				list = append(list, zzC11Vanilla)
+			}
+			if c.msg == ":init" && list[len(list)-1] != zzC11Vanilla {
+				early = true
 			}
 			tab[i] = list
 			continue
@@ -745,10 +752,11 @@ func zzC11BoundSend(s *slip.Scope, inst *Instance, msg string) (out zzC11Result)
 func zzC11Work(n, shape, masks, msg, ord int, bound bool) {
 	c := zzC11Decode(n, shape, masks, msg)
 	hist := c.zzC11History(ord)
-	alias, wrong := c.zzC11Replica(hist)
+	early, alias, wrong := c.zzC11Replica(hist)
 	vrt.Note("history", zzC11HistString(hist))
-	vrt.Carve("C11-insert-alias", alias)
-	vrt.Carve("C11-insert-position", wrong && !alias)
+	vrt.Carve("C11-vanilla-before-components", early)
+	vrt.Carve("C11-insert-alias", alias && !early)
+	vrt.Carve("C11-insert-position", wrong && !alias && !early)
 	// The dispatch findings concern single flavors of a program: the path is
 	// split (part 0: all flavors outside those regions, part 1 / 2: the flavors
 	// inside), so that the carve predicates are decided before slip runs.
@@ -762,7 +770,7 @@ func zzC11Work(n, shape, masks, msg, ord int, bound bool) {
 		anyFwd = anyFwd || fwd[i]
 	}
 	part := 0
-	if !alias && !wrong {
+	if !early && !alias && !wrong {
 		switch {
 		case anySkip && anyFwd:
 			part = vrt.Choice("part", 3)
